@@ -19,7 +19,7 @@ CHECKS = {
          "holding its operands untouched, and the host must survive every case. The iteration and fiber scenario products (containers mutated while "
          "iterated, iterators shared between loops, fibers called in every state) are executed by the reference machine and replayed. "
          "StackBudget.tla models the frame and slot budgets of a fiber; its terminal states predict the outcome of call chains (functions, methods, "
-         "lambdas, inside fibers) around the 64-frame limit with narrow and wide frames, and of deeply nested data.",
+         "lambdas, inside fibers) around the 64-frame limit with narrow and wide frames, and of deeply nested data. The capture-order and class-hierarchy products are replayed too, and every scenario replay (of every property) runs with reclaimed objects quarantined: an access to one is reported, whatever the program then prints.",
     note="Exhaustive over the stated pool and forms only (not over all programs). String byte semantics are Strings.tla's (C13); results of "
          "successful operations are checked by C05/C12/C13, here only that they complete. Four genuine defects (natives on instances of classes "
          "derived from built-ins, == on two self-containing containers, value-stack overrun with wide frames, deep nesting) are recorded findings: "
@@ -186,7 +186,7 @@ CHECKS = {
          "program are validated by TraceVm.tla (a handler is popped only by its own frame, no frame returns with a handler installed, an exception lands "
          "on the innermost installed record with the recorded frame count and height, the in-flight flag changes only at Throw / Landed). The ideal run records trigger events for the "
          "six recorded try/finally findings; a differing behaviour is attributed to a finding only if its ideal run contains that finding's trigger, "
-         "every other program must agree exactly (output, outcome, error class, message, trace lines). The error scenario products that have a handler (every kind of built-in failure at the end of call chains through functions, methods, constructors, lambdas and fibers) and two fibers suspended inside finally blocks with their exceptions waiting are replayed as well.",
+         "every other program must agree exactly (output, outcome, error class, message, trace lines). The error scenario products that have a handler (every kind of built-in failure at the end of call chains through functions, methods, constructors, lambdas and fibers) and two fibers suspended inside finally blocks with their exceptions waiting are replayed as well. A variable of the handling function declared before the try statement and captured by closures stays shared with them through the unwinding.",
     note=MACHINE_NOTE + " Six genuine defects of try/finally compilation are recorded in known_findings.json (not small repairs).",
     technique="TLA+ reference machine + TLC-generated programs + scenario products replayed on the implementation; findings attributed by trigger", design="4 C08"),
  "C09": dict(
@@ -198,7 +198,7 @@ CHECKS = {
          "products of the caller's context at the switch (try body, catch block, finally with nothing / an exception / a return value pending, loop, "
          "argument evaluation) x the kind of switch x main-or-fiber, are run through the machine by TLC and replayed on checked and optimised builds; "
          "TraceVm.tla validates every switch event (a resumed fiber is exactly as it was left, caller chain +-1, both representations of the active fiber equal, "
-         "the in-flight flag untouched by a switch). Closures over a suspended scope's variables are written and read from both sides of the switch; two fibers suspended inside finally blocks with their exceptions waiting continue with their own exception; StackBudget.tla's rule that fibers nest to any depth - also after runs that died deep inside nested fibers - is replayed for depths 2 .. 1200.",
+         "the in-flight flag untouched by a switch). Closures over a suspended scope's variables are written and read from both sides of the switch; two fibers suspended inside finally blocks with their exceptions waiting continue with their own exception; StackBudget.tla's rule that fibers nest to any depth - also after runs that died deep inside nested fibers - is replayed for depths 2 .. 1200. The innermost of 2-4 nested fibers calls any fiber up the chain (or a finished / suspended outsider): every waiting fiber refuses, nothing is re-entered, the chain completes in order.",
     note=MACHINE_NOTE + " Scenario products are built outside TLC (same static resolution as the compiler); the expectation always comes from the TLC run of Machine.tla.",
     technique="TLA+ reference machine (TLC) + scenario products replayed on the implementation", design="4 C09"),
  "C04": dict(
@@ -235,7 +235,7 @@ CHECKS = {
          "object, or any output difference between schedules, is a violation. The same schedules are applied to every operation of "
          "Natives.tla written with TEMPORARY operands (nothing but the VM's own rooting keeps them alive while the operation allocates) and "
          "to the scenario products of the other properties (closures in every capture order and exit path, exceptions, fibers, classes, "
-         "iteration, maps, runs that die with captured variables live).",
+         "iteration, maps, runs that die with captured variables live). The probes of a dropped suspended fiber open several captured variables in every order (each must keep the fiber alive by itself).",
     note="Exhaustive only for the collector core within the bound (4 boxes, 2 pointer slots); the whole-program layer is "
          "exploration over a fixed program set under dominating schedules. Trusts the quarantine hook to turn use-after-free into an event.",
     technique="TLA+ spec + TLC exhaustive + history replay on memory::Heap; schedule-differential runs with quarantine",
